@@ -1,5 +1,6 @@
 import VtProofs.FileOffset
 import VtProps.C13Memo
+import VtProps.C13Idx
 import VtProps.C20
 /-!
 # C13 — concurrent reads from one opened container return what sequential reads return
